@@ -555,6 +555,31 @@ func runC08(w *World, r *Report) {
 	// ---- copy-cell
 	r.Rule("C08.copy-cell", "copy-list cells written under sync.Once; cursor advance agrees; atomic close count; last child closes the source", 6)
 	copyCellChecks(w, r, "C08.copy-cell")
+	r.Rule("C08.copies-share-the-converted-items", "the copies of a converted reader share the CONVERTED items: nothing on the way of StreamReader.Copy builds a convert reader, so a convert function runs once per item (inside the shared cell) whatever the number of copies — a stateful convert (numbering, de-duplicating, dropping by history) would otherwise show each copy a different sequence, and its panic would escape from one copy's Recv instead of landing in the cell", 1)
+	{
+		cp := w.Fn("schema", "StreamReader.Copy")
+		bad := ""
+		n := 0
+		for f := range w.reach(true, cp) {
+			if f.Blocks == nil || !w.inRepo(f) {
+				continue
+			}
+			n++
+			instrs(f, func(in ssa.Instruction) {
+				if al, ok := in.(*ssa.Alloc); ok {
+					if nt := namedOf(al.Type()); nt != nil && nt.Origin().Obj().Name() == "streamReaderWithConvert" {
+						bad = w.fname(origin(f)) + " builds a streamReaderWithConvert"
+					}
+				}
+				if c, ok := in.(ssa.CallInstruction); ok {
+					if sc := staticCallee(c); sc != nil && origin(sc).Name() == "newStreamReaderWithConvert" {
+						bad = w.fname(origin(f)) + " calls newStreamReaderWithConvert"
+					}
+				}
+			})
+		}
+		r.Check(bad == "", "C08.copies-share-the-converted-items", "StreamReader.Copy and what it calls build no convert reader", cp.Pos(), fmt.Sprintf("%d functions on the way of Copy", n), bad+": the source is copied below the conversion and every copy converts for itself, in its own read order — with a numbering convert three copies of [a b c] read [4:a 5:b 6:c] instead of [1:a 2:b 3:c], with an ErrNoValue de-duplication [[x y y] [y z] [x x z]] instead of [x y z] each")
+	}
 
 	// ---- kinds-exhaustive
 	r.Rule("C08.kinds-exhaustive", "Recv / Close / MergeStreamReaders switch over all reader kinds", 3)
